@@ -219,7 +219,7 @@ impl Property for C03 {
 
     fn cases(&self, tier: Tier) -> u64 {
         match tier {
-            Tier::Quick => 300_000,
+            Tier::Quick => 900_000,
             Tier::Thorough => 2_000_000,
         }
     }
